@@ -31,6 +31,7 @@ MANIFEST = {
             "probe does not compile are skipped and counted (a C06 matter); >10% skipped makes the run inconclusive.",
 }
 MANIFEST["text"] += ' A second regeneration history runs over the output of an older version of a namespace in which only nested definitions were edited (dated after that output): every type that nests them must carry the new sizes.'
+MANIFEST["text"] += ' Constants include single- and half-precision values whose exact rational exceeds the range of a float; the C storage-override option is among the code bases.'
 
 
 def const_expect(c):
